@@ -696,6 +696,10 @@ func init() {
 					if !ok {
 						continue
 					}
+					if c.deferRestoresField(info, ds, pkgFld) {
+						defers = append(defers, Loc{b, i})
+						continue
+					}
 					lit, ok := ds.Call.Fun.(*ast.FuncLit)
 					if !ok {
 						continue
